@@ -3,8 +3,8 @@ package main
 // C16 — lazy parameters delay, memoise and stay lexical; strict ones do not.
 
 import (
-	"go/constant"
 	"fmt"
+	"go/constant"
 	"go/token"
 	"go/types"
 
